@@ -252,6 +252,23 @@ func runC13World(w *World, tier string, spec *crashSpec, out *c13Run) (bool, int
 			retry = retry[1:]
 		}
 	}
+	// sometimes the nodes already hold a finished round of an earlier key generation:
+	// whatever happens to the victim during the judged ceremony, that round stays what it was
+	round0, ready0 := "", false
+	if w.Tape.Bool(1, 3, "earlierRound") {
+		p0 := w.StartDKGPayload(2+w.Tape.Choose(n-1, "t0"), members)
+		if rep := w.CallAPI(w.Nodes[proposer], "startDKG", "POST", "/startDKG", p0); rep.OK() {
+			round0 = RoundID(p0)
+			ready0 = c.RunDKG(round0, members, 500*n)
+			w.Stats.Fault("multi-round")
+			w.Advance(2e9)
+			payload = w.StartDKGPayload(t, members)
+			round = RoundID(payload)
+			if round == round0 {
+				round0, ready0 = "", false
+			}
+		}
+	}
 	if !post() {
 		retry = append(retry, post)
 		step()
@@ -290,6 +307,18 @@ func runC13World(w *World, tier string, spec *crashSpec, out *c13Run) (bool, int
 		done = c.AllInState(round, StIdle, members) && len(c.Tr.Order) > 0 && c.Tr.AllHaveBatch(c.Tr.LastBatch(), members)
 		so.checkStores(round, members)
 		checkNoDuplicateStoreEntries(w, "C13", round, members)
+	}
+	if !w.Failed() && ready0 {
+		for _, i := range members {
+			if st := w.Nodes[i].RoundState(round0); st != StIdle {
+				if st == "" {
+					st = "missing"
+				}
+				w.Fail("C13", "finished-earlier-round-changed-after-restart/"+st, fmt.Sprintf("node %d held the finished round %.8s of an earlier key generation before the judged ceremony; now that round is %s (victim=%d)", i, round0, st, victim))
+				break
+			}
+		}
+		w.Stats.Probe("earlier-round-still-ready")
 	}
 	if out != nil {
 		out.completed = done
